@@ -31,6 +31,7 @@ type ProgCase struct {
 	// unmapped keys of the first match field of the root
 	UnmappedHex []string
 	RegSeqs     []regSeq // C06: checksum-registry operation sequences (regseq.go)
+	Off         []offRun // encodes into / decodes from buffers that are not in their initial state (offset.go)
 	Cells       map[string]*CodecCell
 }
 
@@ -106,6 +107,7 @@ func buildCases(ctx *core.Ctx, progs []*dsl.Program, maxDev int) []*ProgCase {
 		if regSequencesOn {
 			buildRegSeqs(pc, regDepth(ctx))
 		}
+		buildOffRuns(pc)
 		// unmapped keys: the baseline message with the key member replaced
 		if mf, key, vals := r.UnmappedKeys(); mf != nil && len(pc.Msgs) > 0 {
 			base := pc.Msgs[0]
@@ -165,6 +167,7 @@ func driverInput(pc *ProgCase) []string {
 	for k, h := range pc.UnmappedHex {
 		in = append(in, fmt.Sprintf("DEC u%d %s %s", k, r.Root.Name, h))
 	}
+	in = append(in, offInput(pc)...)
 	in = append(in, regInput(pc)...)
 	return in
 }
